@@ -939,8 +939,10 @@ func parseTeletextRow(i *Item, d decoder, fs func() styler, row []byte) {
 		// Style has been set
 		if color != nil || doubleHeight != nil || doubleSize != nil || doubleWidth != nil || (s != nil && s.hasBeenSet()) {
 			// Style has changed
-			if color != li.InlineStyle.TeletextColor || doubleHeight != li.InlineStyle.TeletextDoubleHeight ||
-				doubleSize != li.InlineStyle.TeletextDoubleSize || doubleWidth != li.InlineStyle.TeletextDoubleWidth ||
+			if (color != nil && color != li.InlineStyle.TeletextColor) ||
+				teletextBoolHasChanged(doubleHeight, li.InlineStyle.TeletextDoubleHeight) ||
+				teletextBoolHasChanged(doubleSize, li.InlineStyle.TeletextDoubleSize) ||
+				teletextBoolHasChanged(doubleWidth, li.InlineStyle.TeletextDoubleWidth) ||
 				(s != nil && s.hasChanged(li.InlineStyle)) {
 				// Line has started or the line item already has some text (the box has been closed): the new style
 				// only applies to what follows
@@ -984,6 +986,12 @@ func parseTeletextRow(i *Item, d decoder, fs func() styler, row []byte) {
 	if len(l.Items) > 0 {
 		i.Lines = append(i.Lines, l)
 	}
+}
+
+// teletextBoolHasChanged checks whether a spacing attribute sets a value that differs from the current one (values are
+// compared, not pointers, and an attribute that has never been set is false)
+func teletextBoolHasChanged(n, c *bool) bool {
+	return n != nil && *n != (c != nil && *c)
 }
 
 func appendTeletextLineItem(l *Line, li LineItem, s styler) {
